@@ -124,3 +124,13 @@ Print Assumptions C17_src_pin_operations_tree_walker.
 Print Assumptions C17_link_is_not_a_directory_for_the_filter.
 Print Assumptions C17_followed_link_is_what_it_resolves_to.
 Print Assumptions C17_src_filter_asks_about_the_entry_as_walked.
+
+(* ---- further functions on this property's path, pinned token for token as validated (dependency review after rounds 5 and 6:
+   each missed change had edited a pinned function that this property did not cite) ---- *)
+From XcpPins Require Import Pin_main_expand_globs Pin_operations_new.
+Theorem C17_src_pin_main_expand_globs : pin_unchanged name_main_expand_globs.
+Proof. exact pin_main_expand_globs. Qed.
+Theorem C17_src_pin_operations_new : pin_unchanged name_operations_new.
+Proof. exact pin_operations_new. Qed.
+Print Assumptions C17_src_pin_main_expand_globs.
+Print Assumptions C17_src_pin_operations_new.
